@@ -35,7 +35,7 @@ DEFAULT_SREG = ("IntString", "FloatString", "BooleanString")
 FULL_SREG = PSEUDO_NAMES
 
 DEFAULT_OPTS = dict(fw="base", nested=False, merge=None, dkr=[], dkf=[], sreg=list(DEFAULT_SREG),
-                    max_literals=10, pic=False, meta=False, unicode=True)
+                    max_literals=10, pic=False, meta=False, unicode=True, style=None, slots=False)
 
 
 def norm_opts(opts):
@@ -106,6 +106,16 @@ def gen_kwargs(opts):
               post_init_converters=opts["pic"])
     if fw in ("attrs", "dataclasses"):
         kw["meta"] = opts["meta"]
+    if opts.get("slots") and fw in ("attrs", "dataclasses"):
+        # documented generator option: extra keyword arguments for the @attr.s / @dataclass decorator
+        kw["attrs_kwargs" if fw == "attrs" else "dataclass_kwargs"] = {"slots": True}
+    style = opts.get("style")
+    if style == "no-actual-type":
+        kw["types_style"] = {dt.StringSerializable: {dt.StringSerializable.TypeStyle.use_actual_type: False}}
+    elif style == "no-literals":
+        kw["types_style"] = {dt.StringLiteral: {dt.StringLiteral.TypeStyle.use_literals: False}}
+    elif style == "actual-type":
+        kw["types_style"] = {dt.StringSerializable: {dt.StringSerializable.TypeStyle.use_actual_type: True}}
     return kw
 
 
